@@ -7,6 +7,7 @@ import AfkakProofs.BrokerClient.Reent10
 import AfkakProofs.BrokerClient.Compose
 import AfkakProofs.BrokerClient.Term
 import AfkakProofs.BrokerClient.SyncFlat
+import AfkakProofs.BrokerClient.FuelFree
 /-!
 # C10 — after a connection drop, unanswered requests are re-sent once, in order; reconnect, back-off, close
 Property theorems only; helper lemmas live in `AfkakProofs/BrokerClient/`.
@@ -618,6 +619,31 @@ theorem C10_reentrant (cfg : Cfg) (host port : Nat) (evs : List Afkak.BrokerClie
   obtain ⟨N, hN⟩ := Afkak.BrokerClientR.fuel_suffices cfg evs (Afkak.BrokerClientR.StR.init host port)
   exact ⟨N, fun fuel hf => C10_reentrant_partial cfg fuel host port evs (hN fuel hf)⟩
 
+/-- C10 with RE-ENTRANT callbacks, WITHOUT any fuel qualifier: the fuel-free run `traceRω` of the re-entrant model
+    (every step run with the fuel it needs, `AfkakProofs/BrokerClient/FuelFree.lean`; every fuel-indexed run with
+    enough fuel IS this run, `C06_reentrant_fuel_free`) is accepted by the stream monitor `r10`, for every
+    configuration and every event list: once a `close()` has gone ahead no connection attempt, timer or write follows;
+    no request is written twice on one connection; a request whose Deferred has fired is never written afterwards;
+    `down` is reported at most once and only after `close()`. -/
+theorem C10_reentrant_fuel_free (cfg : Cfg) (host port : Nat) (evs : List Afkak.BrokerClientR.EvR) :
+    r10 (Afkak.BrokerClientR.traceRω cfg (Afkak.BrokerClientR.StR.init host port) evs) = true :=
+  Afkak.BrokerClientR.r10_ω cfg host port evs
+
+/-- The same for the function the DRIVER executes (`stepR`, fuel 100000): when the driver's fuel covers the explicit
+    per-step bound along the run (`fuelOk`, decidable), its run is the fuel-free run and `r10` accepts it. -/
+theorem C10_reentrant_driver (cfg : Cfg) (host port : Nat) (evs : List Afkak.BrokerClientR.EvR)
+    (hok : Afkak.BrokerClientR.fuelOk cfg Afkak.BrokerClientR.fuel (Afkak.BrokerClientR.StR.init host port) evs = true) :
+    r10 (Afkak.BrokerClientR.traceR cfg (Afkak.BrokerClientR.StR.init host port) evs) = true := by
+  have e : Afkak.BrokerClientR.traceR cfg (Afkak.BrokerClientR.StR.init host port) evs
+      = Afkak.BrokerClientR.traceRω cfg (Afkak.BrokerClientR.StR.init host port) evs := by
+    rw [Afkak.BrokerClientR.traceR_eq_with]
+    exact (Afkak.BrokerClientR.of_fuelOk cfg _ evs _ hok).1
+  rw [e]; exact Afkak.BrokerClientR.r10_ω cfg host port evs
+
+example : Afkak.BrokerClientR.fuelOk ⟨fun _ => 1⟩ 73 (Afkak.BrokerClientR.StR.init 1 9092)
+      [.make 1 false (some [.cancel 2, .close]), .make 2 false none, .make 3 true (some [.make 4 true]), .flat .connOk,
+       .flat .lost] = true := by decide +kernel
+
 /-! The hypothesis of `C10_reentrant_partial` is satisfiable, with nested callbacks at work: the callback
 of request 1 closes the client from inside `_sendQueued`; the close fires request 3, whose callback
 makes a request on the closed client.  Fuel 20 suffices. -/
@@ -652,6 +678,8 @@ C10_timeout_resends_any_interleaving
 C10_idle_connects_only_on_make
 C10_sync_outcome_is_flat
 C10_reentrant
+C10_reentrant_fuel_free
+C10_reentrant_driver
 -/
 /- OPEN_STATEMENTS
 -/
